@@ -139,7 +139,16 @@ type globalBinding struct {
 func (s *Session) intrinsic(fn *ssa.Function) intrinsicFn { return s.w.intrinsicFor(fn) }
 func (s *Session) skipInit(p *ssa.Package) bool {
 	path := p.Pkg.Path()
-	return nopPackages[path] || skipInitPkgs[path]
+	return isNopPkg(path) || skipInitPkgs[path]
+}
+
+// isNopPkg: packages whose functions are replaced by "return zero values"
+// (logging, protobuf registration/reflection: never the subject of a property)
+func isNopPkg(path string) bool {
+	if nopPackages[path] {
+		return true
+	}
+	return strings.HasPrefix(path, "google.golang.org/protobuf") || strings.HasPrefix(path, "github.com/golang/protobuf")
 }
 func (s *Session) constStr(v string) *StrV {
 	if x, ok := s.strCache[v]; ok {
